@@ -1,6 +1,7 @@
 package main
 
 import (
+	"os"
 	"errors"
 	"fmt"
 	"strings"
@@ -126,6 +127,10 @@ func runC10(cx *ctx) {
 				})
 			}
 		}
+	}
+	// (b3) the command line tool's own passphrase identity, through the real binary
+	if os.Getenv("VERIF_C10_CLI") != "0" && strings.HasPrefix(cx.ask("clilazy none 22 -"), "incorrect") {
+		c10CliCases(cx)
 	}
 	// (c) work-factor strings
 	special := []string{"0", "00", "01", "010", "+5", "-5", "+0", "0x10", "1e1", " 5", "5 ", "", "٥", "５", "2147483648", "9223372036854775807",
